@@ -27,8 +27,13 @@ fn main() {
     }
     match args[1].as_str() {
         "info" => {
+            project::silence_panics();
             let ps = psets::pset(&args[2]);
-            println!("{}", ps.info());
+            let mut info = ps.info();
+            // the number of ciphertext levels the library really builds (the chain stops when a level would be invalid)
+            let levels = project::guarded(|| psets::Suite::new(&ps).level_ids.len());
+            info["levels"] = json!(levels.unwrap_or(0));
+            println!("{}", info);
         }
         // hcv he-replay <config.json> <behaviours.ndjson> [skip]
         "he-replay" => {
